@@ -539,7 +539,11 @@ def termination_checks(ctx):
 
 
 def run(ctx):
-    ctx.proof_gate(gen_cb=regen)
+    if not ctx.proof_gate(gen_cb=regen):
+        # make stops at the first broken proof; the model files the correspondence below evaluates must still be rebuilt on the regenerated tables
+        rc, out = ctx.coq_make(['C05/Model.vo', 'C05/LrDriver.vo'])
+        if rc != 0:
+            ctx.broken.append('the model files C05/Model.v, C05/LrDriver.v do not build on the regenerated tables: %s' % out.strip().split('\n')[-3:])
     term = termination_checks(ctx)
     ctx.build_harness()
     ctx.build_harness(release=True)
